@@ -80,6 +80,21 @@ func c03Scenarios(c *vlib.Ctx) []c03Scenario {
 		}
 	}
 	out = append(out, c03Scenario{State: "RUNNING", Critical: false, Kind: "exec-failure+status", Instant: "idle", FailDelay: true})
+	// burst: the executors of the two non-critical tasks fail, and right behind them (no gap) the executor or
+	// agent of the critical victim: three FAILURE events back to back, only the last one matters
+	for _, st := range []string{"CONFIGURED", "RUNNING"} {
+		for _, k := range []string{"exec-failure", "agent-failure"} {
+			out = append(out, c03Scenario{State: st, Critical: true, Kind: k, Instant: "burst"})
+		}
+	}
+	// completion: the fault arrives while the environment manager's event loop is busy delivering the
+	// completion of a START/STOP transition (held for 500 ms by a delay point): nobody is listening on the
+	// internal event channel at that moment
+	for _, st := range []string{"CONFIGURED", "RUNNING"} {
+		for _, k := range []string{"exec-failure", "agent-failure"} {
+			out = append(out, c03Scenario{State: st, Critical: true, Kind: k, Instant: "completion"})
+		}
+	}
 	// reuseUnlockedTasks: the environment under test is built on tasks taken over from an earlier environment
 	// (kept by a keep-tasks destroy); their executors still label their events with the first environment's id
 	for _, st := range []string{"CONFIGURED", "RUNNING"} {
@@ -197,6 +212,9 @@ func c03Run(c *vlib.Ctx, idx int, sc c03Scenario) {
 	if sc.FailDelay {
 		points = append(points, "taskman.executorFailed.beforeStateUpdate=sleep(300)", "taskman.agentFailed.beforeStateUpdate=sleep(300)")
 		c.Count("faults_with_status_processed_first", 1)
+	}
+	if sc.Instant == "completion" {
+		points = append(points, "envman.statechanged.beforeSend=sleep(500)")
 	}
 	if len(points) > 0 {
 		opt.Env = append(opt.Env, "VERIF_POINTS="+strings.Join(points, ";"))
@@ -376,9 +394,10 @@ func c03Run(c *vlib.Ctx, idx int, sc c03Scenario) {
 	ev0 := len(s.Events())
 	var transDone chan error
 	switch sc.Instant {
-	case "transition", "late-reply":
-		// a transition command is outstanding at the executors while the fault hits
-		gated = true
+	case "transition", "late-reply", "completion":
+		// a transition command is outstanding at the executors while the fault hits (completion: the
+		// executors answer at once and the fault hits while the transition's completion is being delivered)
+		gated = sc.Instant != "completion"
 		op := pb.ControlEnvironmentRequest_START_ACTIVITY
 		if sc.State == "RUNNING" {
 			op = pb.ControlEnvironmentRequest_STOP_ACTIVITY
@@ -400,6 +419,10 @@ func c03Run(c *vlib.Ctx, idx int, sc c03Scenario) {
 				break
 			}
 			time.Sleep(5 * time.Millisecond)
+		}
+		if sc.Instant == "completion" {
+			time.Sleep(150 * time.Millisecond) // the answers are in, the event loop holds the completion event
+			c.Count("faults_while_event_loop_busy", 1)
 		}
 	case "grace":
 		if otherCrit != nil && sc.Critical {
@@ -439,6 +462,13 @@ func c03Run(c *vlib.Ctx, idx int, sc c03Scenario) {
 			return
 		}
 		c.Count("faults_with_mixed_siblings", 1)
+	case "burst":
+		for _, t := range s.Master.Tasks() {
+			if strings.HasSuffix(t.RolePath, ".t2") || strings.HasSuffix(t.RolePath, ".t3") {
+				s.Master.ExecutorFailure(t.AgentID, t.ExecutorID, false)
+			}
+		}
+		c.Count("faults_behind_a_burst_of_failure_events", 1)
 	case "sibling":
 		if sibling != nil && sibling.ID != victim.ID {
 			s.Master.SetTaskState(sibling.ID, "STANDBY")
@@ -453,10 +483,12 @@ func c03Run(c *vlib.Ctx, idx int, sc c03Scenario) {
 	if sc.Instant == "late-reply" {
 		c.Count("faults_with_late_healthy_reply", 1)
 	}
-	if sc.Instant == "transition" || sc.Instant == "late-reply" {
-		time.Sleep(50 * time.Millisecond)
-		gated = false
-		close(gate)
+	if sc.Instant == "transition" || sc.Instant == "late-reply" || sc.Instant == "completion" {
+		if sc.Instant != "completion" {
+			time.Sleep(50 * time.Millisecond)
+			gated = false
+			close(gate)
+		}
 		select {
 		case <-transDone:
 		case <-time.After(150 * time.Second):
@@ -507,7 +539,7 @@ func c03Run(c *vlib.Ctx, idx int, sc c03Scenario) {
 		}
 		c.Count("error_reached", 1)
 		c.Count("error_latency_ms", time.Since(t0).Milliseconds())
-		if sc.State == "CONFIGURED" && (sc.Instant == "transition" || sc.Instant == "late-reply") {
+		if sc.State == "CONFIGURED" && (sc.Instant == "transition" || sc.Instant == "late-reply" || sc.Instant == "completion") {
 			// the fault hit while START_ACTIVITY was in progress: if that start had opened a run (start
 			// timestamp set), its end has to be recorded as well
 			time.Sleep(300 * time.Millisecond)
@@ -524,7 +556,7 @@ func c03Run(c *vlib.Ctx, idx int, sc c03Scenario) {
 				}
 			}
 		}
-		if sc.State == "RUNNING" && sc.Instant != "transition" && sc.Instant != "late-reply" {
+		if sc.State == "RUNNING" && sc.Instant != "transition" && sc.Instant != "late-reply" && sc.Instant != "completion" {
 			// the end of the run is recorded
 			time.Sleep(300 * time.Millisecond)
 			recorded := false
